@@ -11,6 +11,7 @@ usage: clirun.py <scenario> search | check <json>      scenarios: runs, config, 
 import itertools
 import json
 import os
+import re
 import shutil
 import subprocess
 import sys
@@ -474,7 +475,177 @@ def scenario_robust(exe, mode_arg, payload):
     print('no failing input among %d (edge input, language) runs' % n)
 
 
-SCENARIOS = {'runs': scenario_runs, 'config': scenario_config, 'determinism': scenario_determinism, 'robust': scenario_robust}
+# ------------------------------------------------------------------------------------------------ C08: unsupported constructs
+# the property's list of documented-unsupported constructs; {X} = the construct's type text where it is a type
+BAD_TYPES = ['u64', 'i64', 'usize', 'isize', '(u32, String)']
+TYPE_NESTS = ['{X}', 'Vec<{X}>', 'Option<Vec<Option<{X}>>>', 'HashMap<String, {X}>', 'Box<{X}>', '[{X}; 3]', "&'static [{X}]", 'Option<HashMap<String, Vec<{X}>>>',
+              'Vec<Option<HashMap<String, Box<Vec<{X}>>>>>', 'Wrapper<{X}>', 'Vec<Wrapper<Option<{X}>>>']
+ENUM_HEAD = '#[typeshare]\n#[serde(tag = "t", content = "c")]\n'
+
+
+def unsupported_cases():
+    """-> [(name, bad source, repaired source or None)]: the repaired source moves the construct under serde(skip) / typeshare(skip)"""
+    out = []
+    for bt in BAD_TYPES:
+        for k, nest in enumerate(TYPE_NESTS):
+            if k > 0 and bt not in ('u64', '(u32, String)', 'isize'):
+                continue          # every 64-bit name alone; the nestings with three of the constructs
+            ty = nest.replace('{X}', bt)
+            tag = '%s@%d' % (bt, k)
+            for skip in ('#[serde(skip)]', '#[typeshare(skip)]'):
+                sk = 'serde' if 'serde' in skip else 'typeshare'
+                out.append(('field:%s:%s' % (tag, sk), '#[typeshare]\npub struct S { pub ok: u32, pub bad: %s }\n' % ty,
+                            '#[typeshare]\npub struct S { pub ok: u32, %s pub bad: %s }\n' % (skip, ty)))
+                out.append(('variant_field:%s:%s' % (tag, sk), ENUM_HEAD + 'pub enum E { A { ok: u32, bad: %s }, B(u32) }\n' % ty,
+                            ENUM_HEAD + 'pub enum E { A { ok: u32, %s bad: %s }, B(u32) }\n' % (skip, ty)))
+                out.append(('variant_payload:%s:%s' % (tag, sk), ENUM_HEAD + 'pub enum E { A(%s), B(u32) }\n' % ty,
+                            ENUM_HEAD + 'pub enum E { %s A(%s), B(u32) }\n' % (skip, ty)))
+            out.append(('alias:%s' % tag, '#[typeshare]\npub type A = %s;\n' % ty, None))
+            out.append(('newtype:%s' % tag, '#[typeshare]\npub struct N(%s);\n' % ty, None))
+            out.append(('serialized_as_field:%s' % tag, '#[typeshare]\npub struct S { #[typeshare(serialized_as = "%s")] pub bad: Foo }\n' % ty,
+                        '#[typeshare]\npub struct S { pub ok: u32, #[typeshare(skip)] #[typeshare(serialized_as = "%s")] pub bad: Foo }\n' % ty))
+            out.append(('serialized_as_item:%s' % tag, '#[typeshare(serialized_as = "%s")]\npub struct S { pub a: u32 }\n' % ty, None))
+            out.append(('serialized_as_alias:%s' % tag, '#[typeshare(serialized_as = "%s")]\npub type A = Foo;\n' % ty, None))
+    # tuple structs / variants with several fields
+    out.append(('tuple_struct_2', '#[typeshare]\npub struct S(u32, u32);\n', None))
+    out.append(('tuple_struct_3', '#[typeshare]\npub struct S(u32, String, bool);\n', None))
+    for skip in ('#[serde(skip)]', '#[typeshare(skip)]'):
+        out.append(('tuple_variant_2:' + skip, ENUM_HEAD + 'pub enum E { A(u32, u32), B(u32) }\n', ENUM_HEAD + 'pub enum E { %s A(u32, u32), B(u32) }\n' % skip))
+    # serde(flatten)
+    for skip in ('#[serde(skip)]', '#[typeshare(skip)]'):
+        out.append(('flatten_field:' + skip, '#[typeshare]\npub struct S { pub ok: u32, #[serde(flatten)] pub rest: T }\n',
+                    '#[typeshare]\npub struct S { pub ok: u32, %s #[serde(flatten)] pub rest: T }\n' % skip))
+        out.append(('flatten_variant_field:' + skip, ENUM_HEAD + 'pub enum E { A { ok: u32, #[serde(flatten)] rest: T }, B(u32) }\n',
+                    ENUM_HEAD + 'pub enum E { A { ok: u32, %s #[serde(flatten)] rest: T }, B(u32) }\n' % skip))
+    out.append(('flatten_combined_attr', '#[typeshare]\npub struct S { pub ok: u32, #[serde(default, flatten)] pub rest: T }\n', None))
+    # data-carrying enum without both tag and content
+    out.append(('data_enum_no_tag_content', '#[typeshare]\npub enum E { A(u32), B }\n', None))
+    out.append(('data_enum_tag_only', '#[typeshare]\n#[serde(tag = "t")]\npub enum E { A(u32), B }\n', None))
+    out.append(('data_enum_content_only', '#[typeshare]\n#[serde(content = "c")]\npub enum E { A { x: u32 }, B }\n', None))
+    out.append(('data_enum_struct_variant_no_tag', '#[typeshare]\npub enum E { A { x: u32 } }\n', None))
+    # tag / content on a unit enum
+    out.append(('unit_enum_tag_content', '#[typeshare]\n#[serde(tag = "t", content = "c")]\npub enum E { A, B }\n', None))
+    out.append(('unit_enum_tag', '#[typeshare]\n#[serde(tag = "t")]\npub enum E { A, B }\n', None))
+    out.append(('unit_enum_content', '#[typeshare]\n#[serde(content = "c")]\npub enum E { A, B }\n', None))
+    # a const that is not an integer literal
+    for k, e in enumerate(['"x"', '1.5', 'true', "'c'", 'OTHER', '1 + 2', 'foo(3)', '1 as u32', '{ 5 }', 'u32::MAX', 'OTHER * 2', 'if true { 1 } else { 2 }', '!0', 'S { a: 1 }.a', '[1, 2][0]']):
+        out.append(('const_%d' % k, '#[typeshare]\npub const K: u32 = %s;\n' % e, None))
+    return out
+
+
+# accepted consts must carry their value (a unary minus is part of the number)
+CONST_VALUES = [('12', '12'), ('-7', '-7'), ('(3)', '3'), ('0x10', '16'), ('1_000', '1000'), ('5u32', '5')]
+UNSUP_LANGS = [('typescript', []), ('kotlin', ['--java-package', 'com.x']), ('swift', []), ('scala', ['--scala-package', 'com.x']), ('go', ['--go-package', 'p']), ('python', [])]
+SENTINEL = '// existing output - must survive a failing run\n'
+
+
+def unsupported_case(exe, name, bad, good, lang, largs, mode):
+    """mode: 'file' (fresh output path), 'file-existing' (output file exists), 'folder' (a second, supported crate next to the bad one)"""
+    top = tempfile.mkdtemp(prefix='clirun-', dir=WORK)
+    try:
+        src = os.path.join(top, 'src')
+        files = {'bad/src/lib.rs': bad}
+        if mode == 'folder':
+            files['good/src/lib.rs'] = '#[typeshare]\npub struct Fine { pub a: u32 }\n'
+        tree(src, files)
+        outp = os.path.join(top, 'outdir' if mode == 'folder' else 'out.txt')
+        if mode == 'folder':
+            os.makedirs(outp)
+            with open(os.path.join(outp, 'keep.txt'), 'w') as f:
+                f.write(SENTINEL)
+        elif mode == 'file-existing':
+            with open(outp, 'w') as f:
+                f.write(SENTINEL)
+        before = snapshot(outp) if os.path.exists(outp) else {}
+        args = ['--lang', lang] + largs + (['--output-folder', outp] if mode == 'folder' else ['--output-file', outp])
+        rc, out = run(exe, args + [src], cwd=src, timeout=15)
+        if rc == 'timeout':
+            return None      # C07's business
+        if rc == 0:
+            text = ''
+            if os.path.isdir(outp):
+                text = ''.join(open(os.path.join(b, f)).read() for b, _, fs in os.walk(outp) for f in fs if f != 'keep.txt')
+            elif os.path.exists(outp):
+                text = open(outp).read()
+            return 'the run succeeded (exit 0) on an unsupported construct and generated: %s' % ' '.join(text.split())[-160:]
+        if 'panicked at' in out:
+            return None      # C07's business
+        after = snapshot(outp) if os.path.exists(outp) else {}
+        if after != before:
+            return 'the run failed (rc=%s) but wrote or modified output: %s' % (rc, sorted(set(after) ^ set(before)) or sorted(k for k in after if after[k] != before.get(k)))
+        if not out.strip():
+            return 'the run failed without an error message'
+        if good is not None:
+            tree(src, {'bad/src/lib.rs': good})
+            rc2, out2 = run(exe, args + [src], cwd=src, timeout=15)
+            if rc2 != 0 and rc2 != 'timeout' and 'panicked at' not in out2:
+                return 'with the construct moved under skip the run still fails (rc=%s): %s' % (rc2, ' '.join(out2.split())[-200:])
+        return None
+    finally:
+        shutil.rmtree(top, ignore_errors=True)
+
+
+def const_value_case(exe, expr, value):
+    top = tempfile.mkdtemp(prefix='clirun-', dir=WORK)
+    try:
+        src = os.path.join(top, 'src')
+        tree(src, {'c/src/lib.rs': '#[typeshare]\npub const K: i32 = %s;\n' % expr})
+        outp = os.path.join(top, 'out.ts')
+        rc, out = run(exe, ['--lang', 'typescript', '--output-file', outp, src], cwd=src, timeout=15)
+        if rc == 0:
+            text = open(outp).read() if os.path.exists(outp) else ''
+            m = re.search(r'K\b[^=]*=\s*([^;\n]+)', text)
+            if not m or m.group(1).strip() != value:
+                return 'the const `%s` is accepted but generated as `%s` (its value is %s)' % (expr, m.group(1).strip() if m else '<missing>', value)
+        return None
+    finally:
+        shutil.rmtree(top, ignore_errors=True)
+
+
+def scenario_unsupported(exe, mode_arg, payload):
+    """C08 bound: every construct on the property's list (64-bit integers and tuples at 11 nesting shapes (to depth 5, incl. as argument of a user generic) in struct fields, struct-variant
+    fields, variant payloads, alias targets, newtypes and through serialized_as on fields / items / aliases; tuple structs and tuple
+    variants with several fields; serde(flatten) on struct and struct-variant fields; data-carrying enums lacking tag or content;
+    tag / content on unit enums; 15 const initialisers that are not integer literals) x 6 languages, each in one of three output modes
+    (fresh file, existing file, folder with a second supported crate; rotated per case, all three for TypeScript): exit code non-zero,
+    an error message, and the output path absent resp. byte- and mtime-identical; for field- and variant-level constructs the same
+    source with the construct under serde(skip) / typeshare(skip) must succeed; accepted const initialisers must carry their value."""
+    if mode_arg == 'check':
+        if payload.get('const_expr') is not None:
+            m = const_value_case(exe, payload['const_expr'], payload['value'])
+        else:
+            m = unsupported_case(exe, payload['case'], payload['bad'], payload.get('good'), payload['lang'], payload['largs'], payload['mode'])
+        if m:
+            witness(payload, m)
+        print('input passes'); return
+    import concurrent.futures as cf
+    cases = unsupported_cases()
+    jobs = []
+    modes = ['file', 'file-existing', 'folder']
+    for i, (name, bad, good) in enumerate(cases):
+        for j, (lang, largs) in enumerate(UNSUP_LANGS):
+            ms = modes if (lang == 'typescript' and (i % 7 == 0 or not name[0:5] in ('field', 'varia', 'alias', 'newty', 'seria'))) else [modes[(i + j) % 3]]
+            for mo in ms:
+                jobs.append({'case': name, 'bad': bad, 'good': good, 'lang': lang, 'largs': largs, 'mode': mo})
+    def one(job):
+        return job, unsupported_case(exe, job['case'], job['bad'], job['good'], job['lang'], job['largs'], job['mode'])
+    with cf.ThreadPoolExecutor(max_workers=12) as ex:
+        results = list(ex.map(one, jobs))
+    if mode_arg == 'list':       # development aid: every failing run, not just the first
+        for job, m in results:
+            if m:
+                print('FAIL', job['case'], job['lang'], job['mode'], '::', m[:150])
+    for job, m in results:
+        if m:
+            witness(job, m)
+    for expr, value in CONST_VALUES:
+        m = const_value_case(exe, expr, value)
+        if m:
+            witness({'const_expr': expr, 'value': value}, m)
+    print('no failing input among %d (construct, position, language, output mode) runs + %d accepted const initialisers' % (len(jobs), len(CONST_VALUES)))
+
+
+SCENARIOS = {'runs': scenario_runs, 'config': scenario_config, 'determinism': scenario_determinism, 'robust': scenario_robust, 'unsupported': scenario_unsupported}
 
 
 def main():
